@@ -242,6 +242,80 @@ theorem C17_subst_negative_witness :
 
 /-! ## witnesses of the statement-level defects (token strings; the lexer is tied by the run) -/
 
+/- Full strength (FALSE of the code): `reset a` resets exactly the qubits `argIndices` gives
+   for `a`; `measure a -> c` records, for every measured qubit, its circuit index. -/
+/-- `reset name[i];` resets that qubit; `reset name;` resets the whole register **when `name`
+is the first register** (otherwise `C17_reset_register_witness`). -/
+theorem C17_reset_partial {V : Type} (s : St V) (a : Arg) :
+    (∀ i, a.idx = some i → elabReset s a = (argIndices s.qregs a).map (·.map Op.reset)) ∧
+    (∀ sz rest, a.idx = none → s.qregs = (a.name, sz) :: rest →
+      elabReset s a = (argIndices s.qregs a).map (·.map Op.reset)) := by
+  constructor
+  · intro i hi
+    simp [elabReset, hi]
+  · intro sz rest hi hq
+    simp [elabReset, hi, hq, argIndices, regIndices, firstIndex, regSize]
+
+/-- `measure name -> c;` (whole registers) records circuit indices; `measure name[i] -> c[j];`
+records the circuit index **when `name` is the first register** (otherwise
+`C17_measure_key_witness`). -/
+theorem C17_measure_partial {V : Type} (s : St V) (q c : Arg) (loc : List Nat)
+    (ms : List (Nat × String × Nat)) (h : elabMeasure s q c = some (.measure loc ms)) :
+    (q.idx = none → ms.map (·.1) = loc) ∧
+    (∀ sz rest, s.qregs = (q.name, sz) :: rest → ms.map (·.1) = loc) := by
+  unfold elabMeasure at h
+  split at h
+  · simp at h
+  · rename_i l hl
+    split at h
+    · rename_i qsz csz hqs hcs
+      constructor
+      · intro hi
+        simp only [hi] at h
+        cases hc : c.idx with
+        | none =>
+          simp only [hc] at h
+          split at h
+          · simp at h
+          · simp only [Option.map_eq_some_iff, Op.measure.injEq] at h
+            obtain ⟨o, ho, rfl, rfl⟩ := h
+            simp only [argIndices, hi, regIndices, ho, hqs] at hl
+            simp only [Option.some.injEq] at hl
+            subst hl
+            simp [List.map_map, Function.comp_def, Nat.add_comm]
+        | some j => simp [hc] at h
+      · intro sz rest hq
+        cases hi : q.idx with
+        | none =>
+          cases hc : c.idx with
+          | none =>
+            simp only [hi, hc] at h
+            split at h
+            · simp at h
+            · simp only [Option.map_eq_some_iff, Op.measure.injEq] at h
+              obtain ⟨o, ho, rfl, rfl⟩ := h
+              simp only [argIndices, hi, regIndices, ho, hqs] at hl
+              simp only [Option.some.injEq] at hl
+              subst hl
+              simp [List.map_map, Function.comp_def, Nat.add_comm]
+          | some j => simp [hi, hc] at h
+        | some i =>
+          cases hc : c.idx with
+          | none => simp [hi, hc] at h
+          | some j =>
+            simp only [hi, hc, Option.some.injEq, Op.measure.injEq] at h
+            obtain ⟨rfl, rfl⟩ := h
+            simp only [argIndices, hi, hq, firstIndex, if_true, Option.map_some,
+              Option.some.injEq] at hl
+            subst hl
+            simp
+    · simp at h
+
+example : (elabMeasure ({ qregs := [("q", 2), ("r", 1)], cregs := [("c", 2)] } : St Int)
+    ⟨"q", some 1⟩ ⟨"c", some 0⟩).map (fun o => (o.loc, o.meas)) = some ([1], [(1, "c", 0)]) ∧
+    (elabReset ({ qregs := [("q", 2), ("r", 1)] } : St Int) ⟨"q", none⟩).map
+      (fun l => l.map Op.loc) = some [[0], [1]] := by decide
+
 /-- `qreg q[2]; qreg r[3]; reset r;` resets qubits 0 and 1 (the first register). -/
 theorem C17_reset_register_witness :
     (elabReset ({ qregs := [("q", 2), ("r", 3)] } : St Int) ⟨"r", none⟩).map
